@@ -76,6 +76,17 @@ fn check_int(v: i32) -> Result<(), String> {
         if !is_invalid && m != FileMode::from(v as u16) {
             return Err(format!("From<i32>({v}) = {m:?}: neither invalid nor the 16-bit pattern"));
         }
+        // whichever reading of "the 16-bit range" the library takes (0..=65535, or that plus the
+        // signed half), the negatives it accepts are none or all of -32768..=-1
+        // (judged on the values whose 16-bit pattern is a valid mode word, so that "invalid
+        // because out of range" is not confused with "invalid because of unknown type bits")
+        let pat = FileMode::from(v as u16);
+        if !matches!(pat, FileMode::Invalid { .. }) {
+            let ref_as_pattern = FileMode::from(-24576i32) == FileMode::from(0o120000u16);
+            if (m == pat) != ref_as_pattern {
+                return Err(format!("From<i32>({v}) = {m:?} but From<i32>(-24576) = {:?}: the signed 16-bit half is neither wholly in range nor wholly out of range", FileMode::from(-24576i32)));
+            }
+        }
         // when the value is read as the 16-bit word (raw_mode() reports that word), its type and
         // permission parts have to recombine to it like for any other word
         let w = v as u16;
@@ -97,7 +108,7 @@ impl Property for C18 {
         "complete enumeration of all 65 536 words through From<u16>, raw_mode, file_type, permissions, u16/u32::from and the three constructors; i32 domain: all values in [-70000, 140000] and a stride-257 sweep of the whole i32 range plus boundaries (quick) / all 2^32 values (thorough). Every value is a distinct non-trivial case.".into()
     }
     fn assumptions(&self) -> Vec<String> {
-        vec!["for negative i32 in -32768..=-1 either 'invalid' or the 16-bit pattern is accepted (the statement does not say whether the signed half is in range)".into()]
+        vec!["for negative i32 in -32768..=-1 either 'invalid' or the 16-bit pattern is accepted (the statement does not say whether the signed half is in range), but the same answer for all of them".into()]
     }
     fn required_labels(&self, _t: Tier) -> Vec<&'static str> {
         vec!["words", "ints"]
